@@ -2,6 +2,7 @@ SPECIFICATION Spec
 CONSTANTS Obj = {1,2,3}
  D = 2
  Dev = {}
+ Family = {"copy", "deepcopy", "pickle", "subset", "join", "dataframe", "hdf5", "pdb", "delete_atom", "add_bond"}
  KeepFamily = {}
 INVARIANT CopyPreserves
 INVARIANT Contiguous
